@@ -683,11 +683,11 @@ def c09(ctx):
                 break
     mm = field_mismatches(ps, ['in_check', 'attack_map'])
     # the quantifier's own enumeration: one attacker, optional single blocker, every pair of squares
-    mode = 'sample' if ctx.quick else 'full'
+    mode = 'full'
     rc, out, err, st2 = harness(['attack', 'a09', mode], timeout=3000)
     acases, aimpl = read_lines(RUN + '/a09.cases'), read_lines(RUN + '/a09.impl')
     amodel = run_oracle(acases)
-    am = [i for i in range(len(acases)) if aimpl[i] != amodel[i]]
+    am = [i for i in range(len(acases)) if amodel[i] != '%s %s' % (aimpl[i], aimpl[i])]
     for i in am[:5]:
         ctx.v.violation('single-attacker-differs-from-geometry', {'case': acases[i], 'engine': aimpl[i], 'rules_and_model': amodel[i],
                         'case_format': 'ATT <attacker piece byte> <from> <to> <blocker or -1> <parked king square> (0x88 squares)'},
@@ -756,3 +756,422 @@ def c15(ctx):
 
 
 REPLAYS['C15'] = replay_pos
+
+
+# =====================================================================================================
+# search-level properties (real engine over pipes)
+import search as S
+
+
+def search_batch(ctx, n, quick_depth_cap=None, tag=''):
+    """positions with a legal move, `go depth d` on the engine and the model's iterative deepening on the same (fen, d)"""
+    pos = [p for p in S.positions(ctx, n) if p['nlegal'] > 0]
+    jobs = []
+    for p in pos:
+        d = S.depth_for(p, ctx.quick)
+        if quick_depth_cap:
+            d = min(d, quick_depth_cap)
+        p['depth'] = d
+        jobs.append(S.Job(p['fen'], 'go depth %d' % d))
+    S.run_jobs(jobs, workers=8)
+    models = S.model_searches([(p['fen'], p['depth']) for p in pos])
+    for p, j, m in zip(pos, jobs, models):
+        p['job'], p['model'] = j, m
+        p['parsed'] = uci.parse_search_output(j.lines or [])
+    return pos
+
+
+def crash_violation(ctx, p, prop_note):
+    j = p['job']
+    ctx.v.violation('engine-died-or-hung-during-search', {'fen': p['fen'], 'go': j.go, 'died': j.died, 'timed_out': j.timeout,
+                    'last_lines': (j.lines or [])[-5:], 'stderr': j.stderr[-800:], 'note': prop_note},
+                    signature=sig(ctx.pid, 'crash', p['fen'], j.go))
+
+
+@check('C04', ['C04.v'])
+def c04(ctx):
+    n = 110 if ctx.quick else 3000
+    pos = search_batch(ctx, n)
+    compared = deviations = sens_skipped = 0
+    nontrivial = set()
+    suspicious = []
+    for p in pos:
+        j, m = p['job'], p['model']
+        if j.died or j.timeout:
+            crash_violation(ctx, p, 'C04 needs the analysis output')
+            continue
+        if 'iters' not in m:
+            if m.get('error') in ('TIMEOUT', 'STACKOVERFLOW'):
+                p['skipped'] = True          # the extracted model is too slow on this tree: not compared
+            else:
+                ctx.corr_broken.append({'fen': p['fen'], 'model': m})
+            continue
+        its = S.impl_iterations(p['parsed'])
+        mits = {i['depth']: i for i in m['iters']}
+        last_model = m['iters'][-1]['depth']
+        # iterations completed: exactly 1..d unless single legal move / forced mate found (the model implements those exits)
+        last_impl = max(its) if its else None
+        for k, (kind, val, pv, nodes) in sorted(its.items()):
+            if k not in mits:
+                suspicious.append((p, k, 'engine completed iteration %d, model stopped after %d' % (k, last_model), None))
+                continue
+            compared += 1
+            nontrivial.add((p['fen'], k))
+            exp = S.format_score(mits[k]['score'])
+            if (kind, val) != exp:
+                suspicious.append((p, k, 'score', (kind, val, exp)))
+        if last_impl is not None and last_impl != last_model and not any(s[0] is p for s in suspicious):
+            suspicious.append((p, last_impl, 'engine stopped after iteration %d, model after %d (go depth %d)' % (last_impl, last_model, p['depth']), None))
+    # re-judge every disagreement against the property itself: the exact minimax value of the full tree, and whether that
+    # tree contains a lazy-sensitive node (the admitted deviation)
+    if suspicious:
+        reqs = ['MINIMAXS\t%s\t%d' % (p['fen'], k) for (p, k, what, info) in suspicious[:40]]
+        outs = run_oracle(reqs)
+        for (p, k, what, info), o in zip(suspicious[:40], outs):
+            if what == 'score' and o.startswith('OK|'):
+                _, v, s = o.split('|')
+                exact = S.format_score(int(v))
+                if s == '1':
+                    sens_skipped += 1
+                    continue
+                if (info[0], info[1]) != exact:
+                    ctx.v.violation('score-differs-from-minimax', {'fen': p['fen'], 'depth': k, 'engine_score': '%s %d' % (info[0], info[1]),
+                                    'minimax_value': int(v), 'minimax_as_reported': '%s %d' % exact, 'tree_has_lazy_sensitive_node': False,
+                                    'how': '`position fen %s`, `go depth %d`, read `info depth %d` (or final `info score`)' % (p['fen'], p['depth'], k)},
+                                    signature=sig('c04', p['fen'], k))
+                else:
+                    deviations += 1      # model's alpha-beta disagreed but engine equals minimax: model ordering hit a sensitive node
+            elif what != 'score':
+                ctx.v.violation('iterations-completed-differ', {'fen': p['fen'], 'go': 'go depth %d' % p['depth'], 'observation': what,
+                                'engine_depth_lines': sorted(S.impl_iterations(p['parsed'])), 'model_iterations': [i['depth'] for i in p['model']['iters']],
+                                'model_scores': [i['score'] for i in p['model']['iters']]}, signature=sig('c04it', p['fen'], p['depth']))
+            if len(ctx.v.violations) >= 5:
+                break
+    return {'evaluations': len(pos), 'distinct_nontrivial': len(nontrivial),
+            'rule': 'positions (sparse synthetic, playout, corpus) with `go depth d` (d by material: up to 3-4 with few men, 1-2 on full boards) on the real engine; '
+                    'every completed iteration score compared with the model search (iterative deepening incl. early exits) and, on disagreement, with plain minimax of the full tree; '
+                    'non-trivial = distinct (position, iteration) pairs compared',
+            'iteration_scores_compared': compared, 'admitted_lazy_deviations': sens_skipped, 'traces_validated_against_impl': compared,
+            'model_too_slow_skipped': sum(1 for p in pos if p.get('skipped')),
+            'depth_histogram': {str(d): sum(1 for p in pos if p['depth'] == d) for d in (1, 2, 3, 4)},
+            'samples': [{'fen': p['fen'], 'depth': p['depth'], 'engine': p['job'].lines[-2:] if p['job'].lines else None, 'model': p['model']} for p in pos[:2]]}
+
+
+def replay_search(ctx, data):
+    d = data['data']
+    fen = d.get('fen')
+    go = d.get('go') or ('go depth %d' % d.get('depth', 1))
+    if not fen:
+        print(json.dumps(d, indent=1)[:1500])
+        return True
+    j = S.run_jobs([S.Job(fen, go)])[0]
+    print('\n'.join(j.lines or []))
+    dep = int(go.split()[-1]) if go.split()[-1].isdigit() else 2
+    print('model:', S.model_searches([(fen, min(dep, 3))])[0])
+    return True
+
+
+for _p in ('C03', 'C04', 'C05', 'C10', 'C14'):
+    REPLAYS[_p] = replay_search
+
+
+@check('C05', ['C05.v'])
+def c05(ctx):
+    n = 260 if ctx.quick else 6000
+    allpos = S.positions(ctx, n, extra_seed=5)
+    pos = [p for p in allpos if p['men'] <= 7]
+    maxd = 3 if ctx.quick else 4
+    # mate solver (AND/OR over the model's legal moves = rules by C01/C02), iteratively deepened
+    solved = {}
+    pending = list(range(len(pos)))
+    for d in range(0, maxd + 1):
+        outs = run_oracle(['MMATE\t%s\t%d' % (pos[i]['fen'], d) for i in pending])
+        nxt = []
+        for i, o in zip(pending, outs):
+            if o.startswith('MATE '):
+                solved[i] = int(o.split()[1])
+            else:
+                nxt.append(i)
+        pending = nxt
+    jobs, idx = [], []
+    for i, p in enumerate(pos):
+        if p['nlegal'] == 0:
+            continue
+        jobs.append(S.Job(p['fen'], 'go depth %d' % maxd))
+        idx.append(i)
+    S.run_jobs(jobs, workers=8)
+    nontrivial = set()
+    checked = mates_found = 0
+    for i, j in zip(idx, jobs):
+        p = pos[i]
+        p['job'] = j
+        if j.died or j.timeout:
+            crash_violation(ctx, p, 'C05')
+            continue
+        parsed = uci.parse_search_output(j.lines)
+        its = S.impl_iterations(parsed)
+        if not its:
+            continue
+        last = max(its)
+        kind, val, pv, nodes = its[last]
+        checked += 1
+        sol = solved.get(i)          # +k: mover mates in k plies; -k: mover is mated in k plies; None: no forced mate within maxd
+        single = p['nlegal'] == 1
+        if sol is not None and abs(sol) <= maxd and not single:
+            mates_found += 1
+            nontrivial.add(p['fen'])
+            exp = (abs(sol) + 1) // 2 * (1 if sol > 0 else -1)
+            if kind != 'mate' or val != exp:
+                ctx.v.violation('forced-mate-not-reported-exactly', {'fen': p['fen'], 'go': 'go depth %d' % maxd, 'solver_plies': sol, 'expected': 'mate %d' % exp,
+                                'engine_final': '%s %d' % (kind, val), 'engine_lines': j.lines[-3:]}, signature=sig('c05', p['fen']))
+            else:
+                # the move played keeps the mate: after it the opponent is mated in |sol|-1 (or we are mated in |sol|-1 ...)
+                bm = parsed['bestmove'][-1] if parsed['bestmove'] else None
+                if bm and sol > 0:
+                    p['after'] = (bm, sol)
+        elif kind == 'mate' and not single:
+            # announced mate must be real: solver to the announced distance
+            plies = abs(val) * 2 - (1 if val > 0 else 0)
+            o = run_oracle(['MMATE\t%s\t%d' % (p['fen'], min(plies, maxd + 1))])[0]
+            real = o.startswith('MATE ') and int(o.split()[1]) == (plies if val > 0 else -plies)
+            if not real:
+                ctx.v.violation('announced-mate-does-not-exist', {'fen': p['fen'], 'engine_final': 'mate %d' % val, 'solver': o, 'engine_lines': j.lines[-3:]},
+                                signature=sig('c05r', p['fen']))
+        if len(ctx.v.violations) >= 5:
+            break
+    # the move played keeps the mate: after it the opponent is mated in sol-1 plies
+    keep = [(p['fen'], p['after']) for p in pos if 'after' in p]
+    outs = run_oracle(['MMATEAFTER\t%s\t%s\t%d' % (f, bm, sol - 1) for f, (bm, sol) in keep])
+    for (f, (bm, sol)), o in zip(keep, outs):
+        if o != 'MATE %d' % (-(sol - 1)):
+            ctx.v.violation('move-played-does-not-keep-the-mate', {'fen': f, 'bestmove': bm, 'mate_in_plies': sol, 'after_the_move': o},
+                            signature=sig('c05k', f))
+    # terminal classification + eval band through `eval` and `go`
+    term = [p for p in allpos if p['nlegal'] == 0]
+    tjobs = [S.Job(p['fen'], 'go depth 2') for p in term[:40]]
+    S.run_jobs(tjobs, workers=4)
+    for p, j in zip(term, tjobs):
+        if j.died or j.timeout:
+            p['job'] = j
+            crash_violation(ctx, p, 'terminal root')
+        elif not any(l.startswith('bestmove 0000') for l in (j.lines or [])):
+            ctx.v.violation('terminal-root-no-null-move', {'fen': p['fen'], 'lines': j.lines}, signature=sig('c05t', p['fen']))
+    # |evaluation| stays far inside the mate band: POS stream evals
+    ps = pos_stream(ctx, 'p05', 10 if ctx.quick else 400, 300 if ctx.quick else 20000, 1, 0)
+    mx = 0
+    for a, fen in zip(ps['impl'], ps['fens']):
+        if a[0] == 'OK':
+            ev = abs(int(a[8]))
+            incheck_nomoves = (a[6] == '1' and a[4] == '0')
+            if not incheck_nomoves:
+                mx = max(mx, ev)
+                if ev > CLOSE:
+                    ctx.v.violation('evaluation-inside-mate-band', {'fen': fen, 'eval': int(a[8])}, signature=sig('c05b', fen))
+            else:
+                if int(a[8]) != -100000:
+                    ctx.v.violation('checkmate-not-scored-as-mate', {'fen': fen, 'eval': int(a[8])}, signature=sig('c05m', fen))
+            if a[6] == '0' and a[4] == '0' and int(a[8]) != 0:
+                ctx.v.violation('stalemate-not-scored-as-draw', {'fen': fen, 'eval': int(a[8])}, signature=sig('c05s', fen))
+    return {'evaluations': checked + len(ps['fens']), 'distinct_nontrivial': len(nontrivial),
+            'rule': 'sparse positions (<= 7 men) solved by an AND/OR mate search over legal moves to %d plies; `go depth %d` must report `mate N` with exactly the '
+                    'shortest distance (sign for the losing side) when a forced mate within the depth exists and the root has more than one move, and an announced mate must exist; '
+                    'terminal roots; |eval| below the mate band and mate/stalemate classification on the POS stream; non-trivial = distinct positions with a forced mate' % (maxd, maxd),
+            'searched': checked, 'positions_with_forced_mate': mates_found, 'max_abs_eval_seen': mx, 'terminal_roots': len(tjobs),
+            'traces_validated_against_impl': checked,
+            'samples': [{'fen': pos[i]['fen'], 'solver_plies': solved.get(i)} for i in list(solved)[:3]]}
+
+
+CLOSE = 20800
+
+
+@check('C03', ['C03.v'])
+def c03(ctx):
+    n = 60 if ctx.quick else 1500
+    pos = [p for p in S.positions(ctx, n, extra_seed=3) if p['nlegal'] > 0]
+    forms = []
+    for k, p in enumerate(pos):
+        w = ' w ' in p['fen']
+        d = S.depth_for(p, True)
+        forms.append([('go depth %d' % d, None), ('go movetime 1', None), ('go movetime 80', None), ('go wtime 1 btime 1', None),
+                      ('go wtime 300 btime 300 winc 10 binc 10 movestogo 3', None), ('go infinite', 0.0), ('go infinite', 0.03), ('go', 0.05),
+                      ('go wtime 100000 btime 100000', 0.02), ('go depth 1', None), ('go movetime -5', None), ('go depth %d wtime 5 btime 5' % (d + 1), None)][k % 12:][:1]
+                     + [('go depth 1', None)][:0])
+    jobs = []
+    for p, fs in zip(pos, forms):
+        for go, stop in fs:
+            jobs.append(S.Job(p['fen'], go, stop_after=stop, tag=p))
+    S.run_jobs(jobs, workers=8, per_job_timeout=60)
+    legal_req = []
+    for j in jobs:
+        parsed = uci.parse_search_output(j.lines or [])
+        j.parsed = parsed
+        if j.died or j.timeout:
+            crash_violation(ctx, {'fen': j.fen, 'job': j}, 'no bestmove within 60 s')
+            continue
+        if len(parsed['bestmove']) != 1:
+            ctx.v.violation('not-exactly-one-bestmove', {'fen': j.fen, 'go': j.go, 'stop_after_s': j.stop_after, 'bestmove_lines': parsed['bestmove']},
+                            signature=sig('c03n', j.fen, j.go))
+            continue
+        legal_req.append((j, parsed['bestmove'][0]))
+    res = S.lines_legal([(j.fen, [bm]) for j, bm in legal_req])
+    for (j, bm), r in zip(legal_req, res):
+        if r != -1:
+            ctx.v.violation('bestmove-is-not-legal', {'fen': j.fen, 'go': j.go, 'stop_after_s': j.stop_after, 'bestmove': bm, 'lines': j.lines[-3:]},
+                            signature=sig('c03l', j.fen, j.go))
+    # a second go right after the first bestmove (one bestmove per go)
+    e = uci.Engine()
+    e.ready()
+    multi = 0
+    for p in pos[:15]:
+        e.send('position fen ' + p['fen'])
+        n0 = len(e.lines)
+        for g in ('go depth 1', 'go movetime 1', 'go depth 2'):
+            e.send(g)
+            idx, died = e.read_until(lambda l: l.startswith('bestmove'), 30)
+            if idx is None:
+                ctx.v.violation('no-bestmove-for-consecutive-go', {'fen': p['fen'], 'go': g}, signature=sig('c03c', p['fen'], g))
+                break
+        time.sleep(0.05)
+        e.ready()
+        nb = sum(1 for l in e.lines[n0:] if l.startswith('bestmove'))
+        multi += 1
+        if nb != 3:
+            ctx.v.violation('bestmove-count-for-three-go', {'fen': p['fen'], 'bestmove_lines': nb}, signature=sig('c03m', p['fen']))
+    e.close()
+    kinds = {}
+    for j in jobs:
+        kinds[j.go.split()[1] if len(j.go.split()) > 1 else 'bare'] = kinds.get(j.go.split()[1] if len(j.go.split()) > 1 else 'bare', 0) + 1
+    return {'evaluations': len(jobs) + multi * 3, 'distinct_nontrivial': len(set((j.fen, j.go, j.stop_after) for j in jobs)),
+            'rule': 'positions with at least one legal move x go forms (depth, movetime incl. 1 ms and negative, clock forms incl. 1 ms budgets, infinite/bare followed by stop '
+                    'after 0-50 ms, three consecutive go commands); observable = number of bestmove lines per go and legality of the move by the model generator; '
+                    'non-trivial = distinct (position, go form, stop delay)',
+            'go_forms': kinds, 'traces_validated_against_impl': len(jobs),
+            'samples': [{'fen': j.fen, 'go': j.go, 'stop_after_s': j.stop_after, 'bestmove': j.parsed['bestmove']} for j in jobs[:3]]}
+
+
+@check('C10', ['C10.v'])
+def c10(ctx):
+    n = 70 if ctx.quick else 2000
+    pos = [p for p in S.positions(ctx, n, extra_seed=10) if p['nlegal'] > 0]
+    jobs = []
+    for k, p in enumerate(pos):
+        d = S.depth_for(p, ctx.quick) + (1 if k % 3 == 0 else 0)
+        hist = ['setoption name currmoveLogInterval value %d' % [10, 50, 1000][k % 3]]
+        if k % 4 == 3:
+            jobs.append(S.Job(p['fen'], 'go infinite', history=hist, stop_after=0.25 + 0.1 * (k % 5)))   # mid-iteration PV prints need >= 200 ms
+        else:
+            jobs.append(S.Job(p['fen'], 'go depth %d' % d, history=hist))
+    S.run_jobs(jobs, workers=8, per_job_timeout=90)
+    reqs, meta = [], []
+    npv = ncurr = 0
+    for j in jobs:
+        parsed = uci.parse_search_output(j.lines or [])
+        if j.died or j.timeout:
+            crash_violation(ctx, {'fen': j.fen, 'job': j}, 'C10')
+            continue
+        for l in parsed['malformed']:
+            ctx.v.violation('malformed-info-line', {'fen': j.fen, 'go': j.go, 'line': l}, signature=sig('c10f', l[:60]))
+        pvs = []
+        last_pv = None
+        for l in j.lines:
+            m = uci.INFO_DEPTH.match(l) or uci.INFO_SCORE.match(l)
+            if m:
+                pv = m.group(7).split()
+                last_pv = pv
+                pvs.append(pv)
+            m = uci.BESTMOVE.match(l)
+            if m:
+                if last_pv is None or not last_pv or m.group(1) != last_pv[0]:
+                    ctx.v.violation('bestmove-is-not-head-of-last-pv', {'fen': j.fen, 'go': j.go, 'bestmove': m.group(1), 'last_pv': last_pv},
+                                    signature=sig('c10b', j.fen, j.go))
+        for pv in pvs:
+            npv += 1
+            if not pv:
+                ctx.v.violation('empty-pv', {'fen': j.fen, 'go': j.go}, signature=sig('c10e', j.fen, j.go))
+            reqs.append((j.fen, pv))
+            meta.append((j, pv))
+        # currmove lines: a legal root move with its 1-based number (number <= number of root moves)
+        nleg = j.tag['nlegal'] if j.tag else None
+        for c in parsed['curr_lines']:
+            ncurr += 1
+            reqs.append((j.fen, [c['move']]))
+            meta.append((j, ['currmove', c['move'], c['number']]))
+    res = S.lines_legal(reqs)
+    for (j, pv), r in zip(meta, res):
+        if r != -1:
+            ctx.v.violation('illegal-move-in-printed-line', {'fen': j.fen, 'go': j.go, 'line': pv, 'first_illegal_index': r}, signature=sig('c10l', j.fen, ' '.join(map(str, pv))))
+            if len(ctx.v.violations) >= 5:
+                break
+    return {'evaluations': npv + ncurr, 'distinct_nontrivial': len(set((m[0].fen, ' '.join(map(str, m[1]))) for m in meta)),
+            'rule': 'every `info ... pv` line of real searches (depth-limited with low currmove logging interval, and infinite+stop after 250-650 ms so that '
+                    'mid-iteration PV lines are printed) replayed move by move on the model generator; bestmove = head of the last PV line; info-line grammar by regex; '
+                    'currmove lines name a legal root move; non-trivial = distinct (position, line)',
+            'pv_lines': npv, 'currmove_lines': ncurr, 'searches': len(jobs), 'traces_validated_against_impl': npv + ncurr,
+            'samples': [{'fen': m[0].fen, 'line': m[1]} for m in meta[:3]]}
+
+
+def strip_volatile(lines):
+    out = []
+    for l in lines:
+        if l.startswith('info depth') or l.startswith('bestmove'):
+            l = re.sub(r' nps -?\d+', '', l)
+            l = re.sub(r' time -?\d+', '', l)
+            out.append(l.strip())
+        elif l.startswith('info score'):
+            l = re.sub(r' nps -?\d+', '', l)
+            l = re.sub(r' time -?\d+', '', l)
+            out.append('FINAL ' + l.strip())
+    # mid-iteration `info score` lines depend on the 200 ms wall-clock threshold: keep only the last one (the final summary)
+    finals = [x for x in out if x.startswith('FINAL')]
+    return [x for x in out if not x.startswith('FINAL')] + finals[-1:]
+
+
+@check('C14', ['C14.v'])
+def c14(ctx):
+    n = 40 if ctx.quick else 800
+    pos = [p for p in S.positions(ctx, n, extra_seed=14) if p['nlegal'] > 0]
+    rnd = ctx.rng
+    others = [p['fen'] for p in pos]
+    jobs_a, jobs_b = [], []
+    for p in pos:
+        d = max(2, S.depth_for(p, ctx.quick))
+        # history: other games, searches (completed and stopped), perft/eval, option changes, isready
+        hist = []
+        for _ in range(rnd.randint(1, 4)):
+            o = rnd.choice(others)
+            hist.append('position fen ' + o)
+            k = rnd.randint(0, 5)
+            if k == 0:
+                hist += ['go depth 2', ('wait',)]
+            elif k == 1:
+                hist += ['go infinite', ('sleep', 0.03), 'stop', ('wait',)]
+            elif k == 2:
+                hist += ['perft 2', 'eval']
+            elif k == 3:
+                hist += ['setoption name currmoveLogInterval value %d' % rnd.choice([10, 77, 5000]), 'go depth 1', ('wait',)]
+            elif k == 4:
+                hist += ['isready', 'go movetime 20', ('wait',)]
+            else:
+                hist += ['position startpos moves e2e4 e7e5', 'go depth 3', ('wait',)]
+        jobs_a.append(S.Job(p['fen'], 'go depth %d' % d))
+        jobs_b.append(S.Job(p['fen'], 'go depth %d' % d, history=hist))
+    S.run_jobs(jobs_a, workers=8, fresh_process_each=True)
+    S.run_jobs(jobs_b, workers=8, fresh_process_each=True)
+    diffs = 0
+    for p, a, b in zip(pos, jobs_a, jobs_b):
+        if a.died or a.timeout or b.died or b.timeout:
+            crash_violation(ctx, {'fen': p['fen'], 'job': b if (b.died or b.timeout) else a}, 'C14')
+            continue
+        la, lb = strip_volatile(a.lines), strip_volatile(b.lines)
+        if la != lb:
+            diffs += 1
+            ctx.v.violation('analysis-depends-on-history', {'fen': p['fen'], 'go': a.go, 'history': [h if isinstance(h, str) else list(h) for h in b.history],
+                            'fresh_session': la, 'after_history': lb}, signature=sig('c14', p['fen'], a.go))
+            if len(ctx.v.violations) >= 5:
+                break
+    return {'evaluations': len(pos) * 2, 'distinct_nontrivial': len(pos),
+            'rule': 'probe (`position P`, `go depth d`) in a fresh process and after a random history (other positions, completed and stopped searches, perft/eval, '
+                    'setoption with different logging intervals, isready); compared: every `info depth` line (score, nodes, pv), the final summary and bestmove, with time/nps removed; '
+                    'non-trivial = distinct probes',
+            'probes': len(pos), 'differences': diffs, 'traces_validated_against_impl': len(pos),
+            'samples': [{'fen': pos[0]['fen'], 'history': [h if isinstance(h, str) else list(h) for h in jobs_b[0].history], 'output': strip_volatile(jobs_b[0].lines or [])}] if pos else []}
